@@ -63,11 +63,16 @@ class Gen:
     def atom(self, allow_const=True):
         if allow_const and self.o.consts and self.rng.random() < 0.2:
             return str(self.rng.choice([0, 1, 2, 10]))
+        if getattr(self.o, 'reserved', False) and self.rng.random() < 0.12:
+            self.note('reserved_name')
+            return self.rng.choice(['true', 'false'])      # identifiers pymwp does not count as variables
         return self.var()
 
     def maybe_cast(self, e):
         if self.o.sugar and self.rng.random() < 0.15:
             self.note('cast_operand')
+            if getattr(self.o, 'double_casts', False) and self.rng.random() < 0.3:
+                return self.sugar(f'(int)(long){e}', e)
             return self.sugar(f'(int){e}', e)
         return e
 
@@ -78,7 +83,7 @@ class Gen:
         if self.nbin >= self.o.max_bin:
             k = min(k, 0.29)
         if k < 0.2:
-            y = self.var()
+            y = self.atom(allow_const=False)
             self.note('copy')
             if self.o.sugar and self.o.whole_rhs_cast and r.random() < 0.15:
                 self.note('cast_whole_rhs_id')
